@@ -23,12 +23,13 @@ RULE = (
     "missing} as .ods and .xlsx x every list of 0..3 data files over the kinds A accepted, F rejected by a field "
     "(last row), "
     "U rejected by IsUnique (last row repeats a key of the same file), S accepted but sharing key values with "
-    "every A and S sibling, M missing path, D a directory (the k-th occurrence of a kind is its k-th file, so all "
+    "every A and S sibling, E accepted by every field but with exactly the number of names for which the CID's count "
+    "rule cannot be evaluated (InterfaceError at the end of that file: exit 1), M missing path, D a directory, T a regular file named with a trailing path separator (the k-th occurrence of a kind is its k-th file, so all "
     "orders of a list name the same files) x --until in {absent, -1, 0, 3 (bad row behind the limit), 4 (bad row "
     "inside)}; the data are delimited files with one header row; the enumeration is repeated for ODS and Excel "
     "(xlsx) data files with the valid csv CID; plus 8 unusable argument lists. The CID has an IsUnique and a "
     "DistinctCount check, so keys or counts carried from file to file would show. Oracle: per-file verdict = "
-    "cutplace.validate(fresh Cid, path, validate_until) for existing files, 'unreadable' for M and D; expected "
+    "cutplace.validate(fresh Cid, path, validate_until) for existing files, 'unreadable' for M, D and T; expected "
     "exit {0} iff CID loads and all files accepted, {1} CID rejected or a file rejected, {3} a named file "
     "unreadable, {1,3} when both, 2 (returned or SystemExit) for unusable arguments, never 4. Metamorphic: all "
     "orders of the same files give the same exit code (also where {1,3} leaves open which one). Thorough (a few in quick): a seed-"
@@ -46,11 +47,12 @@ ASSUMPTIONS = [
 ]
 EXHAUSTIVE = True
 EXHAUSTIVE_SCOPE = (
-    "12 CID/data-format variants x all 259 lists of 0..3 files over 6 kinds (every order) x 5 --until settings; "
+    "12 CID/data-format variants x all 585 lists of 0..3 files over 8 kinds (every order) x 5 --until settings; "
     "8 unusable argument lists"
 )
 
-KINDS = ("A", "F", "U", "S", "M", "D")
+KINDS = ("A", "F", "U", "S", "E", "M", "D", "T")
+UNREADABLE_KINDS = ("M", "D", "T")
 UNTILS = ("absent", "-1", "0", "3", "4")
 SUFFIX = {"delimited": ".csv", "ods": ".ods", "excel": ".xlsx"}
 # (cid container, cid state, data format)
@@ -73,7 +75,8 @@ def cid_table(fmt, rejected=False):
     rows.append(["F", "id" if rejected else "name", "", "", "", "Text", ""])
     if not rejected:
         rows.append(["C", "id must be unique", "IsUnique", "id"])
-        rows.append(["C", "only a few names", "DistinctCount", "name <= 4"])
+        # at most 4 names; for exactly 5 the rule cannot be evaluated (an error of the CID that only data bring out)
+        rows.append(["C", "only a few names", "DistinctCount", "name <= 4 if count != 5 else count < None"])
         # a check that fails on a data set without rows: must not turn "cannot be read" into "rejected"
         rows.append(["C", "at least one id", "DistinctCount", "id >= 1"])
     return rows
@@ -89,6 +92,10 @@ def data_table(kind, k):
         rows = [[str(k * 10 + 4), "d%d" % k], [str(k * 10 + 5), "e%d" % k], ["x%d" % k, "f%d" % k]]
     elif kind == "U":
         rows = [[str(k * 10 + 6), "g%d" % k], [str(k * 10 + 7), "h%d" % k], [str(k * 10 + 6), "i%d" % k]]
+    elif kind == "E":  # five names: the count rule of the CID raises at the end of this file
+        rows = [[str(k * 100 + n), "n%d%d" % (k, n)] for n in range(1, 6)]
+    elif kind == "T":  # an accepted file; it is named with a trailing separator, which no regular file can be opened by
+        rows = [[str(k * 10 + 8), "t%d" % k], [str(k * 10 + 9), "v%d" % k]]
     else:
         raise ValueError(kind)
     return [list(HEADER_ROW)] + rows
@@ -96,10 +103,12 @@ def data_table(kind, k):
 
 def built_verdict(kind, until):
     """The verdict a file was built for: rows 1 header, 2-4 data, the offending row is row 4."""
-    if kind in ("M", "D"):
+    if kind in UNREADABLE_KINDS:
         return "unreadable"
     if kind in ("A", "S"):
         return "accepted"
+    if kind == "E":
+        return None  # whether the count reaches 5 under a limit is for the API to say
     limit = None if until in ("absent", "-1") else int(until)
     return "rejected" if (limit is None or limit >= 4) else "accepted"
 
@@ -126,6 +135,9 @@ NAMINGS = {
     "unicode": "d\xe4t\u20acn_{kind}{k}{suffix}",
     "signs": "#{kind}{k};$x%&=+@{suffix}",
     "nested-same": "same/{kind}{k}/same{suffix}",
+    # the file lies next to the folder a symbolic link points to and is named through the link and "..": the operating
+    # system resolves the link first, a purely textual normalisation of the name ends up somewhere else
+    "symlink-dotdot": "real/{kind}{k}/data{suffix}",
 }
 NAMING_ORDER = sorted(NAMINGS)
 
@@ -163,7 +175,15 @@ class Files(object):
                 os.mkdir(path)
             elif kind != "M":
                 write_table(path, data_table(kind, k))
-        return path
+        if self.naming == "symlink-dotdot":
+            inner = os.path.join(os.path.dirname(path), "inner")
+            link = os.path.join(self.dir, "link-%s%d%s" % (kind, k, SUFFIX[fmt].replace(".", "-")))
+            if not os.path.isdir(inner):
+                os.mkdir(inner)
+            if not os.path.islink(link):
+                os.symlink(inner, link)
+            path = os.path.join(link, os.pardir, os.path.basename(path))
+        return path + os.sep if kind == "T" else path
 
     def paths(self, kinds, fmt):
         seen = {}
@@ -175,7 +195,7 @@ class Files(object):
 
     def api_verdict(self, sub, kind, k, fmt, until):
         """Verdict of the programmatic API on a fresh Cid; None if the API failed in an undocumented way."""
-        if kind in ("M", "D"):
+        if kind in UNREADABLE_KINDS:
             return "unreadable"
         key = (kind, k, fmt, until)
         if key not in self._verdicts:
@@ -187,11 +207,17 @@ class Files(object):
                 verdict = "accepted"
             except errors.DataError:
                 verdict = "rejected"
+            except errors.InterfaceError as error:
+                # the CID's count rule cannot be evaluated for this file: an error of the CID, so exit code 1
+                verdict = "rejected" if kind == "E" else None
+                if verdict is None:
+                    sub.notes["api-error:%s%d:%s:until-%s" % (kind, k, fmt, until)] = "InterfaceError: %s" % (
+                        norm_message(error),)
             except Exception as error:
                 verdict = None
                 sub.notes["api-error:%s%d:%s:until-%s" % (kind, k, fmt, until)] = "%s: %s" % (
                     type(error).__name__, norm_message(error))
-            if verdict is not None and verdict != built_verdict(kind, until):
+            if verdict is not None and built_verdict(kind, until) is not None and verdict != built_verdict(kind, until):
                 sub.notes["api-differs-from-construction:%s%d:%s:until-%s" % (kind, k, fmt, until)] = (
                     "cutplace.validate says %s, the file was built to be %s" % (verdict, built_verdict(kind, until)))
             self._verdicts[key] = verdict
@@ -226,8 +252,9 @@ def expectation(cid_state, verdicts):
     """(set of acceptable exit codes, class text naming what decides the expectation)."""
     unreadable = sorted(set(k for k, v in verdicts if v == "unreadable"))
     rejected = sorted(set(k for k, v in verdicts if v == "rejected"))
-    names = {"M": "missing", "D": "directory", "F": "field", "U": "unique"}
-    unreadable_text = "data-" + ("missing" if "M" in unreadable else "directory")  # one bucket per root cause
+    names = {"M": "missing", "D": "directory", "F": "field", "U": "unique", "E": "count-rule"}
+    unreadable_text = "data-" + ("missing" if "M" in unreadable else "directory" if "D" in unreadable else
+                                 "trailing-separator")  # one bucket per root cause
     rejected_text = "rejected-by-" + (names.get(rejected[0], "end-check") if rejected else "")  # per root cause
     if cid_state in ("missing", "directory"):
         return {3}, "cid-" + cid_state
@@ -311,7 +338,7 @@ def check_multiset(sub, files, variant, multiset, classes, only=None):
             code = run_main(argv)
             results.append((case, code))
             evals += 1
-            existing = [k for k in order if k not in ("M", "D")]
+            existing = [k for k in order if k not in UNREADABLE_KINDS]
             if len(order) >= 2 or (existing and until in ("3", "4")):
                 nontrivial += 1
             for name in ["expected:" + set_text(expected), "got:%s" % code, "files:%d" % len(order),
